@@ -47,6 +47,13 @@ Theorem search_command_uses_the_validated_query : forall (R : Type) (engine reco
     disk (save h2) = FileDoc (FVal (entries h2)) (FVal (max_size h2)).
 Proof. exact accepted_uses_the_validated_query. Qed.
 
+(* ... at most `limit` results are printed when the engine respects the limit it is given (C01 proves that it does) *)
+Theorem search_command_prints_at_most_the_limit : forall (R : Type) (engine recovery : list N -> Z -> list R) d q limit now dur ctx h c l,
+  validate_query q = ROk c -> validate_limit d limit = ROk l ->
+  (length (engine c l) <= Z.to_nat l)%nat ->
+  (length (ro_printed (search_command R engine recovery d q limit now dur ctx h)) <= Z.to_nat l)%nat.
+Proof. exact accepted_prints_at_most_the_limit. Qed.
+
 (* ... and for a rejected one nothing is searched, printed or recorded *)
 Theorem search_command_rejected_does_nothing : forall (R : Type) (engine recovery : list N -> Z -> list R) d q limit now dur ctx h,
   (forall c, validate_query q <> ROk c) \/ (forall l, validate_limit d limit <> ROk l) ->
@@ -57,6 +64,7 @@ Proof. exact rejected_does_nothing. Qed.
 Print Assumptions cli_starts.
 Print Assumptions search_command_uses_the_validated_query.
 Print Assumptions search_command_rejected_does_nothing.
+Print Assumptions search_command_prints_at_most_the_limit.
 Print Assumptions cli_prints_engine_results.
 Print Assumptions cli_prints_at_most_limit.
 Print Assumptions cli_resort_is_identity.
